@@ -19,7 +19,8 @@ Record feat := Build_feat {
   f_prohibited : bool;       (* prohibitedError *)
   f_canceled : bool;         (* errors.Is context.Canceled *)
   f_https : bool;            (* req.URL.Scheme == "https" *)
-  f_text : N                 (* smallest i with err.Error() == http.StatusText(i), 0 if there is none *)
+  f_text : N;                (* smallest i with err.Error() == http.StatusText(i), 0 if there is none *)
+  f_timeout : bool           (* errors.As interface{ Timeout() bool } finds an error whose Timeout() is true *)
 }.
 
 (* one handler: code 0 = "not mine" *)
@@ -45,6 +46,7 @@ Definition handler_of (name : str) (f : feat) : N :=
   else if str_eqb name (b "handleProhibitedError") then h_flag code_prohibited (f_prohibited f)
   else if str_eqb name (b "handleContextCancelationError") then h_flag code_canceled (f_canceled f)
   else if str_eqb name (b "handleStatusText") then h_text f
+  else if str_eqb name (b "handleTimeoutError") then h_flag code_timeout (f_timeout f)
   else 0.
 
 (* for _, h := range handlers { code = h(req, err); if code != 0 { break } } *)
@@ -70,4 +72,4 @@ Definition feat_okb (f : feat) : bool :=
   match f_status f with Some n => existsb (N.eqb n) error_status_literals | None => true end.
 
 Definition no_feat : feat :=
-  Build_feat false None false false false false None false false false false false 0.
+  Build_feat false None false false false false None false false false false false 0 false.
